@@ -348,8 +348,9 @@ SELFTEST_CASES = [dict(outs=["fail", "fail", "ok"], mr=["str", 3], dflt_count=3,
 def inmemory_cases() -> Any:
     return st.fixed_dictionaries({
         "inmemory": st.just(True), "outs": st.lists(st.sampled_from(["fail", "fail", "ok"]), min_size=1, max_size=5),
-        "maxr": st.integers(1, 5), "nror": st.booleans(), "yielding": st.sampled_from([False, False, True]), "inplace": st.just(False),
-    })
+        "maxr": st.integers(1, 5), "nror": st.booleans(), "yielding": st.sampled_from([False, False, True]), "inplace": st.sampled_from([False, False, True]),
+        "mat": st.sampled_from([None, None, 1, 2, 3]),         # the broker's max_async_tasks argument
+    }).map(lambda d: {**d, "nror": True} if d["inplace"] else d)       # run inside kiq(): only with no_result_on_retry (see the note above)
 
 
 def run_inmemory(c: Dict[str, Any]) -> Outcome:
@@ -359,9 +360,10 @@ def run_inmemory(c: Dict[str, Any]) -> Outcome:
     out.clauses_checked = ["C11.a", "C11.c"]
     outs = c["outs"] + ["fail"] * 10
     runs: List[int] = []
+    hung: List[int] = []
 
     async def go() -> Any:
-        b = InMemoryBroker(await_inplace=c["inplace"])
+        b = InMemoryBroker(await_inplace=c["inplace"], **({"max_async_tasks": c["mat"]} if c.get("mat") else {}))
         b.add_middlewares(SimpleRetryMiddleware(default_retry_count=c["maxr"], default_retry_label=True, no_result_on_retry=c["nror"]))
 
         async def t() -> Any:
@@ -375,7 +377,11 @@ def run_inmemory(c: Dict[str, Any]) -> Outcome:
 
         t.__module__ = __name__
         b.register_task(t, task_name="im.t")
-        await AsyncKicker("im.t", b, {}).with_task_id("R").kiq()
+        try:
+            await asyncio.wait_for(AsyncKicker("im.t", b, {}).with_task_id("R").kiq(), 10)     # milliseconds of work; 10 s = it hangs
+        except asyncio.TimeoutError:
+            hung.append(len(runs))
+            return None
         for _ in range(30):
             await b.wait_all()
             await asyncio.sleep(0)
@@ -393,7 +399,10 @@ def run_inmemory(c: Dict[str, Any]) -> Outcome:
         last = o
         if o == "ok" or want_execs >= max(1, c["maxr"]):
             break
-    if len(runs) != want_execs:
+    if hung:
+        out.add("C11.a", f"kiq() did not return: {hung[0]} of {want_execs} executions happened (outcomes {c['outs']}, max_retries={c['maxr']}, "
+                         f"InMemoryBroker(await_inplace={c['inplace']}, max_async_tasks={c.get('mat')}))")
+    elif len(runs) != want_execs:
         out.add("C11.a", f"{len(runs)} executions, expected {want_execs} (outcomes {c['outs']}, max_retries={c['maxr']}) through InMemoryBroker")
     elif res is None:
         out.add("C11.c", f"no result readable under the task id after {want_execs} attempts")
@@ -403,7 +412,7 @@ def run_inmemory(c: Dict[str, Any]) -> Outcome:
     elif last == "fail" and (not res.is_err or f"attempt {want_execs} failed" not in str(res.error)):
         out.add("C11.c", f"the final attempt (#{want_execs}) failed but the stored result is is_err={res.is_err} error={short(res.error, 60)}")
     out.nontrivial = want_execs >= 2
-    out.classes = ["inmemory_retry", f"execs={min(want_execs, 4)}"] + (["final_ok"] if last == "ok" else ["final_fail"])
+    out.classes = ["inmemory_retry", f"execs={min(want_execs, 4)}"] + (["final_ok"] if last == "ok" else ["final_fail"]) + (["await_inplace"] if c["inplace"] else []) + (["small_max_async_tasks"] if c.get("mat") else [])
     return out
 
 
